@@ -19,6 +19,7 @@ MEM_WRITE = {'mem_a_set': 'a', 'mem_u_set': 'u', 'mem_u_unpriv_set': 'unpriv'}
 BRANCH = {'branch_write_pc': 'branch', 'bx_write_pc': 'bx', 'alu_write_pc': 'alu', 'load_write_pc': 'load'}
 REG_GET = {'get': None, 'get_sp': 13, 'get_lr': 14, 'get_pc': 15}
 REG_SET = {'set': None, 'set_sp': 13, 'set_lr': 14}
+OPCODE_PKG = 'armulator.armv6.opcodes.'
 PURE_MODULES = ('armulator.armv6.bits_ops', 'armulator.armv6.shift', 'armulator.armv6.configurations')
 
 
@@ -387,6 +388,19 @@ class Walker:
             e = e.value
         chain.reverse()
         if isinstance(e, ast.Name):
+            if e.id in env:
+                # a local that aliases the processor or one of its sub-objects (`regs = processor.registers`,
+                # a helper's parameter bound to the processor)
+                v = env[e.id]
+                if v == ('proc',):
+                    return 'proc', chain
+                if isinstance(v, tuple) and v and v[0] == 'sys' and isinstance(v[1], str):
+                    return 'proc', ['registers'] + ([x for x in v[1].split('.') if x]) + chain
+                if isinstance(v, tuple) and v and v[0] == 'procattr' and isinstance(v[1], str):
+                    return 'proc', [x for x in v[1].split('.') if x] + chain
+                if v == ('self',) and not self.proc_cls_is_self():
+                    return 'self', chain
+                return e.id, chain
             if e.id == self.proc_name:
                 return 'proc', chain
             if e.id == 'self':
@@ -587,6 +601,9 @@ class Walker:
                     full[i] = v
         t = ('call', fi.name, tuple(full))
         if not fi.module.name.startswith(PURE_MODULES):
+            if fi.module.name.startswith(OPCODE_PKG) and self.depth < 3 and not any(a == ('default',) for a in full):
+                # private helper of an opcode module: its effects are the caller's effects
+                return self.inline(fi, full, {}, node)
             self.emit('FuncCall', node, module=fi.module.name, func=fi.name, args=full)
         return t
 
